@@ -18,7 +18,7 @@ Inductive uop := UCancel | UDetach | UCalls | UDtor.
 
 (* scheduler role; [last] = fetch_sub returned 1 (the task is not re-queued after this kick-off) *)
 Inductive spc := SStart | SPick | SKickSub | SCall (last : bool) | SFuncFlags (last : bool)
-               | SFuncInc (last : bool) | SFuncSched (last : bool) | SDone.
+               | SFuncInc (last : bool) | SFuncSched (last : bool) | SEnd.
 (* user thread; [d] = the cancel() inlined in the destructor *)
 Inductive upc := UStart | UCancelStore (d : bool) | UCancelOr (d : bool) | UDetachOr | UCallsLoad
                | UDtorFlags | UDtorSpin | UDtorClear | UDone.
@@ -108,7 +108,7 @@ Fixpoint set_nth {A} (l : list A) (n : nat) (x : A) : list A :=
   | y :: r, S k => y :: set_nth r k x
   end.
 
-Definition sdone (p : spc) : bool := match p with SDone => true | _ => false end.
+Definition sdone (p : spc) : bool := match p with SEnd => true | _ => false end.
 Definition udone (p : upc) : bool := match p with UDone => true | _ => false end.
 Definition wdone (p : wpc) : bool := match p with WDone => true | _ => false end.
 
@@ -129,7 +129,7 @@ Definition unext (s : state) (m' : mem) (g' : ghost) : state :=
 Definition ulog (s : state) (tag v : Z) : state := ST (m s) (sp s) (up s) (uprog s) ((tag, v) :: ures s) (pool s) (g s).
 
 (* where the scheduler role goes when func returns: back to the run loop if the task was re-queued *)
-Definition after_func (last : bool) : spc := if last then SDone else SPick.
+Definition after_func (last : bool) : spc := if last then SEnd else SPick.
 
 Definition step_sched (s : state) : option (state * Z) :=
   let x := m s in let gh := g s in
@@ -139,17 +139,17 @@ Definition step_sched (s : state) : option (state * Z) :=
   | SKickSub =>
       let r := ttr x in
       let x' := set_ttr x (wrap 64 (r - 1)) in
-      if r =? 0 then Some (upd_s s x' SDone gh, s_kick_sub)
+      if r =? 0 then Some (upd_s s x' SEnd gh, s_kick_sub)
       else Some (upd_s s x' (SCall (r =? 1)) (g_ticket gh), s_kick_sub)
   | SCall last =>
       if alive x then Some (upd_s s x (SFuncFlags last) (g_access true gh), s_kick_call)
-      else Some (upd_s s x SDone (g_badcall gh), s_kick_call)
+      else Some (upd_s s x SEnd (g_badcall gh), s_kick_call)
   | SFuncFlags last =>
       if fcanc x then Some (upd_s s x (after_func last) (g_access (alive x) gh), s_func_flags)
       else Some (upd_s s x (SFuncInc last) (g_access (alive x) gh), s_func_flags)
   | SFuncInc last => Some (upd_s s (set_inprog x (wrap 32 (inprog x + 1))) (SFuncSched last) (g_access (alive x) gh), s_func_inc)
   | SFuncSched last => Some (upd_s s (set_q x (q x + 1)) (after_func last) (g_access (alive x) gh), s_func_sched)
-  | SDone => None
+  | SEnd => None
   end.
 
 Definition step_user (s : state) : option (state * Z) :=
